@@ -1253,11 +1253,23 @@ impl Scenario for RxSim {
                     // re-establish it (open contexts, remembered label, free list) whenever an input disturbed it
                     let state_pkts: Vec<Vec<u8>> = prog_ops.iter().take_while(|o| o.name != "sweep").filter(|o| o.name == "feed").map(|o| o.get_h("hex").to_vec()).collect();
                     let ids0 = w.rx.led.borrow().attached_ids();
-                    for k in a..a.saturating_add(n) {
-                        let inp = match sweep_input(kind, k, t, open_fid) {
-                            Some(i) => i,
-                            None => break,
-                        };
+                    // kind 4: headers a, a+stride, ... (n of them), each with *every* truncation of the announced packet
+                    // (0 bytes .. one byte more than announced) on tail pattern t
+                    let stride = op.get_u("stride").max(1);
+                    let inputs: Box<dyn Iterator<Item = Vec<u8>>> = if kind == 4 {
+                        Box::new((0..n).map(move |i| a + i * stride).filter(|h| *h <= 0xFFFF).flat_map(move |h| {
+                            let mut full = sweep_input(2, h * 32 + 25, t, open_fid).unwrap_or_default();
+                            let fill = *full.last().unwrap_or(&0);
+                            full.push(fill);
+                            (0..=full.len()).map(move |l| full[..l].to_vec())
+                        }))
+                    } else {
+                        Box::new((a..a.saturating_add(n)).map_while(move |k| sweep_input(kind, k, t, open_fid)))
+                    };
+                    for inp in inputs {
+                        if kind == 4 {
+                            st.inc("sweep_inputs_every_truncation");
+                        }
                         st.inc("sweep_inputs");
                         let (stop, _) = w.feed(st, &inp, 0, Some(Op::new("feed").h("hex", inp.clone())));
                         if stop {
@@ -2026,10 +2038,13 @@ pub mod gen {
         let every = if tier == Tier::Quick { 300 } else { 150 };
         if idx % every == 0 {
             let fid = rng.below(256) as u8;
-            let lab = label(rng, false);
+            // any label kind (a re-use first fragment follows a complete packet that carries the label), any
+            // protocol type, mostly short PDUs
+            let lab = if rng.chance(1, 6) { Lab::ReUse } else { label(rng, false) };
             let n = rng.usize_in(2, 4);
-            let len = rng.usize_in(n, 60);
+            let len = if rng.chance(1, 8) { rng.usize_in(60, 160) } else { rng.usize_in(n, 60) };
             let pdu = pdu_bytes(len, rng.next());
+            let bpt = crate::scen::flow::gen::ptype(rng);
             // half of the base trains carry a header extension in their first fragment (the protected bytes are
             // then three separate regions, see always_detected_fault)
             let exts: Vec<(u16, Vec<u8>)> = match rng.below(4) {
@@ -2037,11 +2052,16 @@ pub mod gen {
                 1 => vec![(0x01, rng.bytes(4)), (0x0200 | rng.below(256) as u16, rng.bytes(2))],
                 _ => vec![],
             };
-            let pkts = fragment(&pdu, fid, 0x0800, &lab, &exts, false, n, None);
-            let mut c = cfg(rng.usize_in(1, 3), 64, 64, 3, &table);
+            let pkts = fragment(&pdu, fid, bpt, &lab, &exts, false, n, None);
+            // storage: ample, or exactly the PDU
+            let sto = if rng.chance(1, 4) { len.max(1) } else { 200 };
+            let mut c = cfg(rng.usize_in(1, 3), sto, sto, 3, &table);
             c.set_u("nbhd", 1);
             let mut ops: Vec<Op> = vec![];
             // re-use first fragments need a label in memory: precede with a complete packet
+            if lab == Lab::ReUse {
+                ops.push(feed(wire::serialise(&Desc { kind: Kind::Complete, lt: LT_3, frag_id: 0, total_len: 0, ptype: 0x0800, label: &[9, 9, 9], exts: &[], final_mandatory: false, payload: &[1, 2, 3], crc: 0 }, None), 0));
+            }
             ops.extend(pkts.into_iter().map(|p| feed(p, 0)));
             return Program { scenario: "rxsim", cfg: c, ops };
         }
@@ -2317,6 +2337,7 @@ pub mod gen {
         let (n0, n1, n2) = if tier == Tier::Quick { (34u64, 0u64, 2048u64) } else { (34, 4096, 32768) };
         // kind 3: 65536 headers in 64 chunks of 1024, times body variants (quick 6, thorough 96)
         let n3 = if tier == Tier::Quick { 64 * 6 } else { 64 * 96 };
+        let n4: u64 = if tier == Tier::Quick { 512 } else { 16384 };
         if idx < n0 {
             // all strings of length 0..=2 in chunks of 2048, in this run's state class
             ops.push(Op::new("sweep").u("kind", 0).u("a", idx * 2048).u("n", 2048).u("t", 0));
@@ -2332,6 +2353,15 @@ pub mod gen {
         } else if idx < n0 + n1 + n2 + n3 {
             let j = idx - n0 - n1 - n2;
             ops.push(Op::new("sweep").u("kind", 3).u("a", (j % 64) * 1024).u("n", 1024).u("t", j / 64));
+        } else if idx < n0 + n1 + n2 + n3 + n4 {
+            // every truncation of the announced packet: quick one header in 16 (8 per run), thorough every header on
+            // two tail patterns
+            let j = idx - n0 - n1 - n2 - n3;
+            if tier == Tier::Quick {
+                ops.push(Op::new("sweep").u("kind", 4).u("a", 5 + 128 * j).u("n", 8).u("stride", 16).u("t", 2));
+            } else {
+                ops.push(Op::new("sweep").u("kind", 4).u("a", 8 * (j % 8192)).u("n", 8).u("stride", 1).u("t", [2u64, 0][(j / 8192) as usize % 2]));
+            }
         } else {
             let n = rng.usize_in(1, 30);
             let mut tbl = table.clone();
@@ -2346,7 +2376,8 @@ pub mod gen {
                     3 | 4 | 5 => {
                         // valid packets with 1..3 mutations
                         fid = fid.wrapping_add(1);
-                        let mut t: Vec<(Vec<u8>, u64)> = if rng.chance(1, 2) { train(rng, &mut tbl, fid, 120).into_iter().map(|p| (p, 0)).collect() } else { crafted(rng, fid).into_iter().map(|p| (p, 10)).collect() };
+                        let tmax = if rng.chance(1, 10) { 8000 } else { 120 };
+                        let mut t: Vec<(Vec<u8>, u64)> = if rng.chance(1, 2) { train(rng, &mut tbl, fid, tmax).into_iter().map(|p| (p, 0)).collect() } else { crafted(rng, fid).into_iter().map(|p| (p, 10)).collect() };
                         let k = rng.usize_in(1, 3);
                         let l = t.len();
                         for _ in 0..k {
